@@ -1,5 +1,6 @@
 import XMT.Drv.Util
 import XMT.Close
+import XMT.TeardownShow
 namespace XMT.Drv.C16
 open XMT XMT.Close XMT.Drv
 
@@ -81,6 +82,7 @@ def handle (args : List String) : String :=
         showState n s
       | none => "bad-op"
     | _, _, _, _, _, _ => "bad-op"
+  | "tdn" :: rest => XMT.Teardown.handleT rest   -- Server / Listener teardown (XMT/Teardown.lean)
   | _ => "bad-op"
 
 end XMT.Drv.C16
